@@ -38,10 +38,6 @@ type Input struct {
 	Mut      string   `json:"mut,omitempty"` // mutation kind that produced the text (tag only)
 }
 
-// the finding "a conversion response followed by other data is accepted" (C12_Spec.T_conv):
-// such texts are generated only on request, as long as the finding is not recorded
-var convTrailing = os.Getenv("VERIF_C12_CONV_TRAILING") != ""
-
 func (in Input) text() string { return strings.Join(in.Parts, "") }
 
 type Obs struct {
@@ -333,10 +329,6 @@ func Gen(r *core.Rng, tier string) ([]core.In[Input], bool) {
 	for _, in := range textCorpus() {
 		add(in, "text-corpus")
 	}
-	if convTrailing {
-		add(textInput("conversion", "conv-trailing", []string{`{"convertedObjects":[]}`, " garbage"}), "text-corpus")
-		add(textInput("conversion", "conv-trailing", []string{`{"failedMessage":"no"}`, "}"}), "text-corpus")
-	}
 	exits := []int{0, 1, 2, 137}
 	if tier == "quick" {
 		genTexts(r.Fork(), "metrics", 126, add)
@@ -396,7 +388,7 @@ func Gen(r *core.Rng, tier string) ([]core.In[Input], bool) {
 var _ = sort.Ints
 
 var Driver = core.Driver[Input, Obs]{
-	Spec: core.Spec{Property: "C12", Imports: []string{"C12_Model", "C12_Spec", "C12_Corr"}, Corr: "C12_Corr", Triggers: []string{"C12conv"}, ShrinkKey: "parts",
+	Spec: core.Spec{Property: "C12", Imports: []string{"C12_Model", "C12_Spec", "C12_Corr"}, Corr: "C12_Corr", ShrinkKey: "parts",
 		Rule: "one hook with two schedule bindings in two queues run by the real operator; the scripted hook reports cwd, environment, context file, initial content of the output files and the temp-dir listing, then ends with exit code in {0,1,2,137} and each of the four output files in {empty, valid, truncated, wrong type}; observed: task status, temp dir afterwards, whether the metric / the patch took effect, path uniqueness across two concurrent executions; quick = every exit code x every single-file state + 60 random combinations + corpus; thorough = the full product (exhaustive); the longname stream uses hook names whose temp-file names straddle the 255-byte file-name limit; every case is non-trivial and distinct by its parameters; TEXT cases: one of the metrics / admission-response / conversion-response files holds a literal text (the model reads it byte by byte): valid texts (1-4 metric operations in the documented forms, one response object; varied whitespace, key order, escapes, UTF-8, number forms) and texts broken by a mutation grammar (tags mut:<kind>): trunc, del/ins/dup of one structural byte, stray closer/opener/separator at a value boundary, value of another JSON type, garbage after valid, whitespace only, only a closer, control byte in a string, bad escape, bad number, case-changed keys, unknown keys, null values, duplicate keys, violated metric rules, non-object documents; a fixed corpus holds texts of every kind; quick = corpus + 180 generated texts, thorough = corpus + 5670, search = corpus + 1680; distinct = distinct by parameters and text"},
 	Gen: Gen, Run: Run, Render: Render, PerShard: 60, Workers: 14, CaseTimout: 40 * time.Second,
 }
